@@ -328,7 +328,7 @@ class ValidateStream(_ValidateBase):
                          "opt": ["or", ["v", o], ["v", other]],
                          "unref": ["v", other]}[shape]
                     cases.append({"std": std, "custom": custom, "expr": e, "kind": "table"})
-        n = 250 if tier == "quick" else 8000
+        n = 180 if tier == "quick" else 8000
         for _ in range(n):
             ncu = rng.randint(0, 2)
             atoms = list(range(6 + ncu))
@@ -528,7 +528,7 @@ class SkipStream(Stream):
         ]
 
     def gen(self, rng, tier):
-        n = 250 if tier == "quick" else 8000
+        n = 180 if tier == "quick" else 8000
         cases = []
         for _ in range(n):
             ncu = rng.randint(0, 2)
